@@ -15,6 +15,9 @@ open Proto Pdf
       spd    <log spline values>                               -> list
       psf    <sigmas> <psis>                                   -> list
       ray    <sigmas> <psis>                                   -> list
+      sstate <edges> <xs> <ws> <op>*                           -> normalised histogram after init and each op
+             op = A<xs> (add_events) | R (reset);  ERR = constructor raises
+      ttrials <box|gauss> <edges> <ts> <te> <sigma> <erfx> <erfy> <times>*  -> pd list per trial (one object)
       tstate <ts list> <te list> <edges> <prof> <op>*          -> S after init and after each op
              op = P<k> (set_params -> profile k) | Q<k> (time_flux_profile = k) | L<edges>
 -/
@@ -102,6 +105,27 @@ def answer (line : String) : String :=
       match spatialHist (pList pF es) ((pList pF xs).zip (pList pF ws)) with
       | some p => fListD fF p
       | none => "ERR"
+  | "sstate" :: es :: xs :: ws :: ops =>
+      let es := pList pF es
+      match spInit es ((pList pF xs).zip (pList pF ws)) with
+      | none => "ERR"
+      | some s0 =>
+        let rec go (s : SpState Float) : List String → List String
+          | [] => []
+          | o :: rest =>
+            let op : SpOp Float := if o == "R" then .reset else .addEvents (pList pF (o.drop 1).toString)
+            let s' := spStep es s op
+            fListD fF s'.cur :: go s' rest
+        String.intercalate " " (fListD fF s0.cur :: go s0 ops)
+  | "ttrials" :: kind :: es :: ts :: te :: sg :: ex :: ey :: trials =>
+      let (ts, te, sg) := (pF ts, pF te, pF sg)
+      let ivs := pairs es
+      let erf := erfTable (pList pF ex) (pList pF ey)
+      let (val, integ) : (Float → Float) × (Float → Float → Float) :=
+        if kind == "box" then (boxVal ts te, boxInt ts te) else (gaussVal ts te sg, gaussInt erf ts te sg)
+      match timeS integ ivs ts te with
+      | none => "ERR"
+      | some S => String.intercalate " " ((trialsRun val ivs S none (trials.map (pList pF))).map (fListD fF))
   | ["spd", vs] => fListD fF ((pList pF vs).map spatialPd)
   | ["psf", ss, ps] => fListD fF (((pList pF ss).zip (pList pF ps)).map (fun q => psfPd q.1 q.2))
   | ["ray", ss, ps] => fListD fF (((pList pF ss).zip (pList pF ps)).map (fun q => rayleighPd q.1 q.2))
